@@ -60,7 +60,7 @@ type tr2 struct {
 }
 
 var leanTypeOfKind = map[string]string{"ents": "List Entry", "omap": "List Entry", "int": "Int", "cids": "List Hash",
-	"set": "List Hash", "smap": "List (Hash × Hash)", "entry": "Entry", "hash": "Hash", "bool": "Bool", "bytes": "Bytes", "key": "Entry", "log": "Unit", "queue": "Q", "optentry": "Option Entry", "chan": "List Entry", "iteropts": "Unit", "appendopts": "Unit"}
+	"set": "List Hash", "smap": "List (Hash × Hash)", "entry": "Entry", "hash": "Hash", "bool": "Bool", "bytes": "Bytes", "key": "Entry", "log": "Unit", "queue": "Q", "optentry": "Option Entry", "chan": "List Entry", "iteropts": "Unit", "appendopts": "Unit", "fetchopts": "Unit"}
 
 func (t *tr2) fail(n ast.Node, why string) string {
 	t.errs = append(t.errs, fmt.Sprintf("%s: %s", why, src(t.fset, n)))
@@ -191,6 +191,12 @@ func (t *tr2) expr(e ast.Expr) (string, string) {
 	case *ast.BinaryExpr:
 		if x.Op == token.EQL || x.Op == token.NEQ {
 			if sel, ok := x.X.(*ast.SelectorExpr); ok && isNil(x.Y) {
+				if id, ok := sel.X.(*ast.Ident); ok && t.kinds[id.Name] == "fetchopts" && sel.Sel.Name == "Length" {
+					if x.Op == token.EQL {
+						return "optLength.isNone", "bool"
+					}
+					return "optLength.isSome", "bool"
+				}
 				if id, ok := sel.X.(*ast.Ident); ok && t.kinds[id.Name] == "iteropts" {
 					switch sel.Sel.Name {
 					case "Amount", "LTE", "LT":
@@ -256,6 +262,9 @@ func (t *tr2) expr(e ast.Expr) (string, string) {
 				return leanName(id.Name + "." + x.Sel.Name), k
 			}
 		}
+		if id, ok := x.X.(*ast.Ident); ok && t.kinds[id.Name] == "fetchopts" && x.Sel.Name == "Exclude" {
+			return "optExclude", "ents"
+		}
 		if id, ok := x.X.(*ast.Ident); ok && t.kinds[id.Name] == "appendopts" && x.Sel.Name == "PointerCount" {
 			return "optsPointerCount", "int"
 		}
@@ -275,6 +284,11 @@ func (t *tr2) expr(e ast.Expr) (string, string) {
 		}
 		return t.fail(e, "selector"), ""
 	case *ast.StarExpr:
+		if sel, ok := x.X.(*ast.SelectorExpr); ok && sel.Sel.Name == "Length" {
+			if id, ok := sel.X.(*ast.Ident); ok && t.kinds[id.Name] == "fetchopts" {
+				return "(optLength.getD 0)", "int"
+			}
+		}
 		if sel, ok := x.X.(*ast.SelectorExpr); ok && sel.Sel.Name == "Amount" {
 			if id, ok := sel.X.(*ast.Ident); ok && t.kinds[id.Name] == "iteropts" {
 				return "(optAmount.getD 0)", "int"
@@ -399,7 +413,7 @@ func (t *tr2) helper(x *ast.CallExpr, name string) (string, string, bool) {
 
 func (t *tr2) call(x *ast.CallExpr) (string, string) {
 	if id, ok := x.Fun.(*ast.Ident); ok {
-		if _, builtin := map[string]bool{"len": true, "append": true, "make": true, "maxInt": true, "minInt": true, "maxClockTimeForEntries": true, "getEveryPow2": true}[id.Name]; !builtin {
+		if _, builtin := map[string]bool{"len": true, "append": true, "make": true, "maxInt": true, "minInt": true, "maxClockTimeForEntries": true, "getEveryPow2": true, "entryLastNKeeping": true, "entrySliceRange": true, "entryLastN": true}[id.Name]; !builtin {
 			if r, k, ok := t.helper(x, id.Name); ok {
 				return r, k
 			}
@@ -434,6 +448,15 @@ func (t *tr2) call(x *ast.CallExpr) (string, string) {
 						return t.fail(x, "make with a non-zero length"), ""
 					}
 					return zeroOfKind(k), k
+				}
+			}
+		case "entryLastNKeeping":
+			if len(x.Args) == 3 {
+				a, ka := t.expr(x.Args[0])
+				b, kb := t.expr(x.Args[1])
+				c, kc := t.expr(x.Args[2])
+				if ka == "ents" && kb == "int" && kc == "ents" {
+					return "(entryLastNKeeping " + a + " " + b + " " + c + ")", "ents"
 				}
 			}
 		case "getEveryPow2":
@@ -488,6 +511,13 @@ func (t *tr2) call(x *ast.CallExpr) (string, string) {
 	}
 	if s == "entry.NewOrderedMap" && len(x.Args) == 0 {
 		return "([] : List Entry)", "omap"
+	}
+	if s == "entry.Difference" && len(x.Args) == 2 {
+		a, ka := t.expr(x.Args[0])
+		b, kb := t.expr(x.Args[1])
+		if ka == "ents" && kb == "ents" {
+			return "(entryDifference " + a + " " + b + ")", "ents"
+		}
 	}
 	if (s == "entry.FindHeads" || s == "entry.NewOrderedMapFromEntries") && len(x.Args) == 1 {
 		// FindHeads is translated itself (GenHeads); NewOrderedMapFromEntries is the model's omFromList (it also
@@ -862,6 +892,24 @@ func (t *tr2) block(stmts []ast.Stmt, fall string, inLoop bool) string {
 		if len(x.Results) == 0 && !inLoop && t.noResult != "" {
 			return t.noResult
 		}
+		if len(x.Results) == 2 && !inLoop && t.partial && isNil(x.Results[1]) {
+			if u, ok := x.Results[0].(*ast.UnaryExpr); ok && u.Op == token.AND {
+				if cl, ok := u.X.(*ast.CompositeLit); ok && src(t.fset, cl.Type) == "Snapshot" && len(cl.Elts) == 2 {
+					f := map[string]string{}
+					for _, el := range cl.Elts {
+						if kv, ok := el.(*ast.KeyValueExpr); ok {
+							f[src(t.fset, kv.Key)] = src(t.fset, kv.Value)
+						}
+					}
+					v := f["Values"]
+					if v != "" && t.kinds[v] == "ents" && f["ID"] == v+"[len("+v+")-1].GetLogID()" {
+						// indexing the last element panics on an empty slice: `none`
+						return "(match " + leanName(v) + ".getLast? with | none => none | some last__ => (some (last__.logId, " + leanName(v) + ")))"
+					}
+				}
+				return t.fail(st, "returned struct")
+			}
+		}
 		if len(x.Results) == 2 && !inLoop && t.partial {
 			// (value, error): an error is `none`
 			if isNil(x.Results[1]) {
@@ -1007,6 +1055,13 @@ func (t *tr2) block(stmts []ast.Stmt, fall string, inLoop bool) string {
 		}
 		switch selChain(c.Fun) {
 		case "sorting.Sort":
+			// sorting.Sort(sorting.Compare, xs, false): ascending by clock (the model's clockAsc: Compare is
+			// LamportClock.Compare on defined entries, Sort's ascending less-function is `ret < 0`)
+			if len(c.Args) == 3 && src(t.fset, c.Args[0]) == "sorting.Compare" && src(t.fset, c.Args[2]) == "false" {
+				if id, ok := c.Args[1].(*ast.Ident); ok && t.kinds[id.Name] == "ents" {
+					return let(leanName(id.Name), "(goSort clockAsc "+leanName(id.Name)+")")
+				}
+			}
 			// sorting.Sort(l.SortFn, xs, true): the log's descending order (parameter sortDesc)
 			if len(c.Args) == 3 && src(t.fset, c.Args[0]) == t.recv+".SortFn" && src(t.fset, c.Args[2]) == "true" {
 				if id, ok := c.Args[1].(*ast.Ident); ok && t.kinds[id.Name] == "ents" {
@@ -1234,6 +1289,21 @@ func (t *tr2) assign(x *ast.AssignStmt, rest []ast.Stmt, fall string, inLoop boo
 			}
 		}
 		return t.fail(x, "clock assignment")
+	}
+	// x := append(A, entrySliceRange(xs, a, b)...): the translated entrySliceRange is partial (its slice expression)
+	if ap, isCall := x.Rhs[0].(*ast.CallExpr); isCall && src(t.fset, ap.Fun) == "append" && len(ap.Args) == 2 && ap.Ellipsis != token.NoPos && t.partial {
+		if inner, ok := ap.Args[1].(*ast.CallExpr); ok && src(t.fset, inner.Fun) == "entrySliceRange" && len(inner.Args) == 3 {
+			if id, ok := x.Lhs[0].(*ast.Ident); ok {
+				a0, k0 := t.expr(ap.Args[0])
+				i0, j0 := t.expr(inner.Args[0])
+				i1, j1 := t.expr(inner.Args[1])
+				i2, j2 := t.expr(inner.Args[2])
+				if k0 == "ents" && j0 == "ents" && j1 == "int" && j2 == "int" {
+					t.kinds[id.Name] = "ents"
+					return "(match (entrySliceRange " + i0 + " " + i1 + " " + i2 + ") with | none => none | some tmp__ => (let " + leanName(id.Name) + " := (" + a0 + " ++ tmp__); " + cont() + "))"
+				}
+			}
+		}
 	}
 	// xs = ys[a:b]  (not in return position): `none` when Go would panic
 	if sl, isSl := x.Rhs[0].(*ast.SliceExpr); isSl && t.partial && !sl.Slice3 {
@@ -1473,7 +1543,7 @@ func (t *tr2) liveVars() []string {
 	}
 	var vs []string
 	for v, k := range t.kinds {
-		if strings.Contains(v, ".") || isParam[leanName(v)] || leanTypeOfKind[k] == "" || k == "log" || k == "iteropts" || k == "appendopts" || k == "ctx" || k == "key" {
+		if strings.Contains(v, ".") || isParam[leanName(v)] || leanTypeOfKind[k] == "" || k == "log" || k == "iteropts" || k == "appendopts" || k == "fetchopts" || k == "ctx" || k == "key" {
 			continue
 		}
 		vs = append(vs, v)
@@ -2299,6 +2369,66 @@ func (t *tr2) admissionDecl(f *ast.File) string {
 	return def
 }
 
+// fromEntryDecls: the two pure parts of fromEntry (log_io.go) around the fetch — the fetch length, and what is
+// made of the fetched entries (the entries are a parameter)
+func (t *tr2) fromEntryDecls(f *ast.File) string {
+	fd := findFunc(f, "fromEntry")
+	if fd == nil || fd.Body == nil {
+		return t.fail(&ast.BlockStmt{}, "fromEntry not found")
+	}
+	t.prepare(fd)
+	iFetch, iLen := -1, -1
+	for i, st := range fd.Body.List {
+		if strings.Contains(src(t.fset, st), "FetchParallel") {
+			iFetch = i
+		}
+		if src(t.fset, st) == "length := -1" {
+			iLen = i
+		}
+	}
+	n := len(fd.Body.List)
+	if iFetch < 0 || iLen < 0 || iLen+1 >= iFetch || n == 0 {
+		return t.fail(fd, "shape of fromEntry")
+	}
+	if as, ok := fd.Body.List[iFetch].(*ast.AssignStmt); !ok || len(as.Lhs) != 1 || src(t.fset, as.Lhs[0]) != "entries" {
+		return t.fail(fd.Body.List[iFetch], "the fetch result is not `entries`")
+	}
+	reset := func(name, ret string) {
+		t.kinds = map[string]string{"sourceEntries": "ents", "options": "fetchopts"}
+		t.subst = map[string]string{}
+		t.loops, t.helperDefs = nil, nil
+		t.fn, t.recv, t.brk, t.noResult, t.emitter = name, "", "", "", ""
+		t.monadic, t.joinN, t.hasFuel, t.usesFuel = 0, 0, false, false
+		t.retType = ret
+	}
+	// (A) the length
+	reset("fromEntryLength", "Int")
+	t.partial = false
+	t.params = []string{"(optLength : Option Int)", "(sourceEntries : List Entry)"}
+	t.pnames = []string{"optLength", "sourceEntries"}
+	// the statements between `length := -1` and the fetch that only compute: hash list building is skipped
+	var head []ast.Stmt
+	for _, st := range fd.Body.List[iLen:iFetch] {
+		txt := src(t.fset, st)
+		if strings.HasPrefix(txt, "var hashes") || strings.HasPrefix(txt, "for _, e := range sourceEntries { hashes = append") {
+			continue // the hashes handed to the fetcher: the fetch is a parameter here
+		}
+		head = append(head, st)
+	}
+	a := strings.Join(strings.Fields(t.block(head, "length", false)), " ")
+	defA := strings.Join(t.loops, "\n") + "def fromEntryLength (optLength : Option Int) (sourceEntries : List Entry) : Int :=\n  " + a + "\n"
+	// (B) the tail
+	reset("fromEntryTail", "Option (Bytes × List Entry)")
+	t.partial = true
+	t.kinds["entries"], t.kinds["length"] = "ents", "int"
+	t.params = []string{"(optExclude : List Entry)", "(sourceEntries : List Entry)", "(entries : List Entry)", "(length : Int)"}
+	t.pnames = []string{"optExclude", "sourceEntries", "entries", "length"}
+	b := strings.Join(strings.Fields(t.block(fd.Body.List[iFetch+1:], "", false)), " ")
+	defB := strings.Join(t.loops, "\n") + "def fromEntryTail (optExclude : List Entry) (sourceEntries : List Entry) (entries : List Entry) (length : Int) : Option (Bytes × List Entry) :=\n  " + b + "\n"
+	t.loops = nil
+	return defA + "\n" + defB
+}
+
 func findMethod(f *ast.File, name string) *ast.FuncDecl {
 	for _, d := range f.Decls {
 		if fd, ok := d.(*ast.FuncDecl); ok && fd.Name.Name == name && fd.Recv != nil {
@@ -2320,7 +2450,7 @@ func renderSlices(repo string) map[string]string {
 		jobs []job
 	}{
 		{"Misc", []job{{"log.go", []string{"maxClockTimeForEntries"}}, {"entry/entry.go", []string{"uniqueCIDs"}}}},
-		{"Loaders", []job{{"log_io.go", []string{"entryLastN", "entryLastNKeeping", "entrySliceRange"}}, {"entry/utils.go", []string{"Difference"}}}},
+		{"Loaders", []job{{"entry/utils.go", []string{"Difference"}}, {"log_io.go", []string{"entryLastN", "entryLastNKeeping", "entrySliceRange", "#fromEntry"}}}},
 		{"Heads", []job{{"entry/utils.go", []string{"FindHeads"}}}},
 		{"Traverse", []job{{"log.go", []string{"traverse"}}}},
 		{"Join", []job{{"log.go", []string{"difference"}}}},
@@ -2351,6 +2481,10 @@ func renderSlices(repo string) map[string]string {
 			}
 			t.file = f
 			for _, n := range j.names {
+				if n == "#fromEntry" {
+					fmt.Fprintf(&b, "/-- `fromEntry` (%s): the fetch length, and what is made of the fetched entries -/\n%s\n", j.file, t.fromEntryDecls(f))
+					continue
+				}
 				if n == "#admission" {
 					fmt.Fprintf(&b, "/-- the admission test of `processQueue` (%s) -/\n%s\n", j.file, t.admissionDecl(f))
 					continue
